@@ -86,7 +86,7 @@ func (ip *Interp) startGoroutine(g *GoR, body func(), runNow bool) {
 					}
 				case *GoPanic:
 					if !ip.cfg.AllowPanic {
-						ip.violation("panic", "no-panic", e.reason+" @ "+e.pos, nil)
+						ip.violation("panic", "no-panic", e.reason+" @ "+e.pos, ip.curModel)
 					}
 					ip.finishPath(&PathEnd{kind: "panic", msg: e.reason + " @ " + e.pos}, e)
 				case *BlockedForever:
@@ -179,7 +179,7 @@ func (ip *Interp) noneRunnable() {
 		}
 	}
 	msg := sb.String()
-	ip.violation("deadlock", "deadlock", msg, nil)
+	ip.violation("deadlock", "deadlock", msg, ip.curModel)
 	panic(&PathEnd{kind: "deadlock", msg: msg})
 }
 
